@@ -1,11 +1,11 @@
 #!/bin/bash
-# Run every quick check at several seeds; print one line per (property, seed). Usage: tools_sweep.sh "1 2 3" [tier]
+# Run every quick check at several seeds; print one line per (property, seed). Usage: tools_sweep.sh "1 2 3" [tier] ["C05 C10 ..."]
 # Evidence / replays are redirected so a sweep never touches the committed files.
 cd "$(dirname "$0")"
-seeds="${1:-1 2 3}"; tier="${2:-quick}"
+seeds="${1:-1 2 3}"; tier="${2:-quick}"; only="${3:-}"
 out="${SWEEP_OUT:-/tmp/sweep_$$}"; mkdir -p "$out"
 for s in $seeds; do
-  for p in $(python3 -c "import json;print(' '.join(c['property_id'] for c in json.load(open('MANIFEST.json'))['checks']))"); do
+  for p in ${only:-$(python3 -c "import json;print(' '.join(c['property_id'] for c in json.load(open('MANIFEST.json'))['checks']))")}; do
     VERIF_SEED=$s VERIF_EVIDENCE_DIR="$out/ev_$s" VERIF_REPLAY_DIR="$out/replays_$s" ./check $p $tier > "$out/$p.$s.log" 2>&1
     rc=$?
     echo "$p seed=$s rc=$rc $(grep -E "^$p $tier" "$out/$p.$s.log" | tail -1)"
